@@ -93,16 +93,16 @@ class Crafter:
 def classes_for(focus):
     c01 = ["valid", "valid_multi", "missing_output", "spent_on_branch", "other_fork_output", "dup_ref_in_tx",
            "dup_ref_across_txs", "null_ref", "wrong_key_sig", "wrong_key_sig_first_of_two", "wrong_key_sig_last_of_two",
-           "outputs_edited", "refs_edited", "placeholder_sig",
+           "outputs_edited", "refs_edited", "placeholder_sig", "known_header_swapped_body",
            "coinbasedata_sig", "bad_curve_point", "intra_block_spend", "dup_tx"]
     c02 = ["valid", "valid_multi", "reward_plus1", "reward_exact_fees", "reward_minus1", "reward_prev_era", "fees_wrong_state",
            "reward_split_exact", "reward_split_plus1", "reward_split_big",
            "zero_output", "max_output", "over_max_output", "u64_output", "total_over_max", "overspend_by_1",
-           "reward_no_fee_tx"]
+           "reward_no_fee_tx", "known_header_swapped_body"]
     c05 = ["valid", "valid_multi", "pow_fails", "target_plus1", "target_minus1", "stale_target", "height_plus1",
            "height_minus1", "cb_height_wrong", "txs_reordered", "ts_equal_parent", "ts_before_parent", "ts_future_31", "ts_future_30",
            "ev_summary_hash", "ev_chain_sample", "ev_block_hash", "ev_other_fork", "merkle_wrong", "txs_dropped",
-           "no_txs", "orphan"]
+           "no_txs", "orphan", "known_header_swapped_body"]
     return {"C01": c01, "C02": c02, "C05": c05, "all": sorted(set(c01 + c02 + c05))}[focus]
 
 
@@ -386,6 +386,30 @@ def make_candidate(cr, klass, parent_hash, now_holder):
         if not others:
             return None
         return cr.craft(parent_hash, evidence_view=_FakeView(cs, rng.choice(others))), now
+    if klass == "known_header_swapped_body":
+        # the header of a block that is already stored (same id), with another body: a reward of another amount, a spend
+        # dropped, or a stored spend from elsewhere added
+        stored = [b for b in t.blocks if b.height > max(0, consensus.MAX_KNOWN_HASH_HEIGHT)]
+        if not stored:
+            return None
+        b = rng.choice(stored)
+        cb = b.transactions[0]
+        how = rng.choice(["reward", "reward", "drop", "extra"])
+        body = list(b.transactions)
+        if how == "drop" and len(body) > 1:
+            del body[rng.randrange(1, len(body))]
+        elif how == "extra":
+            extra = t.random_tx(b.previous_block_hash)
+            if extra is None:
+                how = "reward"
+            else:
+                body.append(extra)
+        if how == "reward" or body == list(b.transactions):
+            value = rng.choice([cb.outputs[0].value + 1, consensus.MAX_SASHIMI, 2 * cb.outputs[0].value])
+            body[0] = Transaction(list(cb.inputs), [Output(value, cb.outputs[0].public_key)] + list(cb.outputs[1:]))
+        blk = Block.deserialize(Block(b.header, body).serialize())
+        assert blk.hash() == b.hash()
+        return blk, b.timestamp + 200
     if klass == "merkle_wrong":
         return cr.craft(parent_hash, merkle=bytes(rng.getrandbits(8) for _ in range(32))), now
     if klass == "txs_reordered":
